@@ -141,7 +141,7 @@ pub fn c03(cx: &Ctx) -> (Vec<Violation>, Cover) {
             if e.total == 0 || e.spent || a.busy_at(e.inst, d.pre) {
                 continue;
             }
-            let first = a.runs.iter().find(|r| {
+            let first = a.runs_in(d.pre, d.post).iter().find(|r| {
                 r.inst == e.inst
                     && r.pos > d.pre
                     && r.pos < d.post
@@ -216,7 +216,7 @@ pub fn c04(cx: &Ctx) -> (Vec<Violation>, Cover) {
         } else {
             let (Some(pre), Some(post)) = (c.pre, c.post) else { continue };
             let ci = a.cmd_idx[&c.cmd];
-            match a.runs.iter().find(|r| r.pos > pre && r.pos < post && r.parent == Some(ci) && a.insts[r.inst].kind == SysKindTag::Probe) {
+            match a.runs_in(pre, post).iter().find(|r| r.pos > pre && r.pos < post && r.parent == Some(ci) && a.insts[r.inst].kind == SysKindTag::Probe) {
                 Some(r) => (r.obs.clone(), r.pos),
                 None => continue,
             }
@@ -255,7 +255,7 @@ pub fn c04(cx: &Ctx) -> (Vec<Violation>, Cover) {
             if a.busy_at(e.inst, d.pre) {
                 continue;
             }
-            for r in a.runs.iter().filter(|r| r.inst == e.inst && r.pos > d.pre && r.pos < d.post && r.parent == Some(d.cmd) && !r.replay && !r.obs.seen().iter().any(|s| matches!(s, Seen::Rem(..) | Seen::Desp(..)))).take(1) {
+            for r in a.runs_in(d.pre, d.post).iter().filter(|r| r.inst == e.inst && r.pos > d.pre && r.pos < d.post && r.parent == Some(d.cmd) && !r.replay && !r.obs.seen().iter().any(|s| matches!(s, Seen::Rem(..) | Seen::Desp(..)))).take(1) {
                 if r.obs.seen().iter().any(|s| matches!(s, Seen::Rem(..) | Seen::Desp(..))) {
                     continue;
                 }
